@@ -64,7 +64,9 @@ def fully_connect(
         .sample(num_pre, replace=True)
         .index.to_numpy()
     )
-    global_post_indices = global_post_indices.reshape((-1, num_pre), order="F").ravel()
+    # The sampled indices are grouped by post cell (`num_pre` samples each). Reorder them
+    # such that they cycle through the post cells for every pre cell (as `pre_rows`).
+    global_post_indices = global_post_indices.reshape((num_pre, -1), order="F").ravel()
     post_rows = post_cell_view.nodes.loc[global_post_indices]
 
     # Pre-synapse is at the zero-eth branch and zero-eth compartment.
@@ -112,7 +114,7 @@ def sparse_connect(
         for cell_idx in post_syn_neurons
     ]
     global_post_indices = (
-        np.hstack(global_post_indices) if len(global_post_indices) > 1 else []
+        np.hstack(global_post_indices) if len(global_post_indices) > 0 else []
     )
     post_rows = post_cell_view.base.nodes.loc[global_post_indices]
 
@@ -158,6 +160,8 @@ def connectivity_matrix_connect(
 
     # get connection pairs from connectivity matrix
     from_idx, to_idx = np.where(connectivity_matrix)
+    if len(from_idx) == 0:
+        return  # No connection requested.
     pre_cell_inds = pre_cell_inds[from_idx]
     post_cell_inds = post_cell_inds[to_idx]
 
